@@ -21,6 +21,7 @@ RULE = ("cases = (pool size 0..3) x (1..5 concurrent raw-peer sessions from 8 sc
 RULE += ("  " + 'Also (round 6): a server without anonymous fall-back: a session holding a listener sends a second USER that is rejected (530), a wrong password, or pipelines PASV / USER / EPSV, and then quits, is cut or logs in again.')
 RULE += ("  " + 'Also (round 7): data_ports handed over as tuple, generator, iterator, map or range.')
 RULE += ("  " + 'Also (round 8): close() and a second start() of the same Server object, then the pool and re-open checks; listener start-ups that take 3-8 iterations before they bind, with pipelined PASV / EPSV.')
+RULE += ("  " + 'Also (round 10): EPSV with a protocol argument (1, 2, ALL, 3) before any listener, then quit or cut.')
 ASSUMPTIONS = [
     "network is the in-memory model of harness/simnet.py (validated against loopback on fault-free scripts)",
     "listener start-up has 0..2 suspension points before and 1..2 after bind (CPython 3.12 has gather+sleep(0))",
